@@ -16,7 +16,7 @@ use prng::Rng;
 use std::fmt::Write;
 use std::sync::Arc;
 use tz::datetime::{DateTime, UtcDateTime};
-use tz::timezone::{LocalTimeType, TimeZoneRef, TimeZoneSettings, Transition};
+use tz::timezone::{AlternateTime, LocalTimeType, MonthWeekDay, RuleDay, TimeZoneRef, TimeZoneSettings, Transition, TransitionRule};
 use tz::TimeZone;
 
 static PARIS: &[u8] = include_bytes!("../../corpus/Pacific/Honolulu");
@@ -75,6 +75,8 @@ struct Zones {
     shared: Vec<Arc<TimeZone>>,
     far_east: TimeZone,
     far_west: TimeZone,
+    /// a zone whose answers after its last transition come from an alternate (DST) rule
+    rule_zone: TimeZone,
 }
 
 /// The simulated clock: a constant reading (2023-11-14T22:13:20.5Z), so that every now() has
@@ -84,6 +86,9 @@ fn fixed_clock() -> Result<std::time::Duration, std::time::Duration> {
 }
 
 fn zref(z: &Zones, i: usize) -> TimeZoneRef<'_> {
+    if i % 7 == 5 {
+        return z.rule_zone.as_ref();
+    }
     match i % 5 {
         0 => z.shared[0].as_ref().as_ref(),
         1 => z.shared[1].as_ref().as_ref(),
@@ -254,7 +259,7 @@ fn eval(z: &Zones, c: &Call) -> u64 {
 fn gen_calls(r: &mut Rng, n: usize, mode: &str) -> Vec<Call> {
     (0..n)
         .map(|_| {
-            let zi = r.usize(5);
+            let zi = r.usize(7);
             let t = *r.pick(INSTANTS);
             let f = *r.pick(FIELDS);
             if mode == "now" {
@@ -270,7 +275,7 @@ fn gen_calls(r: &mut Rng, n: usize, mode: &str) -> Vec<Call> {
                 6 | 7 => Call::FromTs(zi, t),
                 8 | 9 => Call::Find(zi, f),
                 10 | 11 => Call::FindN(zi, f, r.usize(4)),
-                12 | 13 => Call::Project(zi, t, r.usize(5)),
+                12 | 13 => Call::Project(zi, t, r.usize(7)),
                 14 => Call::Format(zi, t),
                 15 => Call::Resolve(r.usize(TZ_VALUES.len())),
                 16 | 17 => Call::Resolve(r.usize(TZ_VALUES.len())),
@@ -297,6 +302,12 @@ fn main() {
         },
         far_east: TimeZone::fixed(14 * 3600).unwrap(),
         far_west: TimeZone::fixed(-12 * 3600).unwrap(),
+        rule_zone: {
+            let std = LocalTimeType::new(3600, false, Some(b"RST")).unwrap();
+            let dst = LocalTimeType::new(7200, true, Some(b"RDT")).unwrap();
+            let rule = AlternateTime::new(std, dst, RuleDay::MonthWeekDay(MonthWeekDay::new(3, 5, 0).unwrap()), 7200, RuleDay::MonthWeekDay(MonthWeekDay::new(10, 5, 0).unwrap()), 10800).unwrap();
+            TimeZone::new(vec![Transition::new(0, 1), Transition::new(86400, 0)], vec![std, dst], vec![], Some(TransitionRule::Alternate(rule))).unwrap()
+        },
     });
     let plans: Vec<Vec<Call>> = (0..nthreads).map(|_| gen_calls(&mut r, ncalls, &mode)).collect();
     // prologue: single-threaded expectations
